@@ -1,6 +1,5 @@
 """C18 — CLI status, diagnostics and written files are consistent and well-located."""
 import os
-import re
 import shutil
 import tempfile
 
@@ -8,26 +7,9 @@ import vlib
 
 
 def classify(case, kind):
-    """Known-finding classes of a failing case.  A class is attached only when the run shows the very symptom
-    the finding describes, so that another failure of the same project is still reported."""
-    cls = set()
-    if kind != "prop":
-        return cls
-    known = set(case.get("known_classes", []))
-    out = case.get("stdout", "") + "\n" + case.get("stderr", "")
-    exit_ = case.get("exit")
-    panicked = "panicked at" in case.get("stderr", "")
-    located = re.search(r"\.graphql:\d+:\d+", out) is not None
-    if "generate-stage-error-not-located" in known:
-        if exit_ == 1 and "Type for scalar" in out and not located:
-            cls.add("generate-stage-error-not-located")
-    if "unspread-fragment-not-checked-then-generate-panics" in known:
-        # `check` accepts the document (C03 finding): no diagnostic names the file of the injected fault, and
-        # `generate` then panics on it (C08 finding; exit status 101, no output document)
-        files = [f for ft in case.get("faults", []) if ft.get("known") for f in ft.get("files", [])]
-        if not any(f in out or f.replace("/", "\\/") in out for f in files):
-            cls.add("unspread-fragment-not-checked-then-generate-panics")
-    return cls
+    """Known-finding classes of a failing case: none at present (findings/C18.json is empty; every finding this check
+    made has been repaired in /repo), so every failing case is a VIOLATION."""
+    return set()
 
 
 def run(ctx):
